@@ -63,7 +63,7 @@ impl<const N: usize, T: Send + Sync> ConIterOfArray<N, T> {
         len: usize,
     ) -> impl ExactSizeIterator<Item = T> {
         let array = &mut *self.array.get();
-        let end_idx = (begin_idx + len).min(array.len());
+        let end_idx = begin_idx.saturating_add(len).min(array.len());
         let len = end_idx - begin_idx;
 
         let ptr = array.as_mut_ptr().add(begin_idx);
@@ -123,7 +123,7 @@ impl<const N: usize, T: Send + Sync> AtomicIter<T> for ConIterOfArray<N, T> {
         let begin_idx = self
             .progress_and_get_begin_idx(n)
             .unwrap_or(self.initial_len());
-        let end_idx = (begin_idx + n).min(N).max(begin_idx);
+        let end_idx = begin_idx.saturating_add(n).min(N).max(begin_idx);
 
         match begin_idx.cmp(&end_idx) {
             Ordering::Equal => None,
